@@ -181,17 +181,32 @@ func keysOf(m map[string]bool) []string {
 }
 
 func TestC11(t *testing.T) {
-	col := stats.New("C11", "rule sets of 1-8 rules with generated conditions (true, false, and conditions that fail to evaluate: index/key out of range, missing field/fact, nil pointer, panicking/unknown method, modulo zero, kind mismatch), saliences with ties and int32 limits, action lists containing counted probe statements, and 0-2 rules removed from the library blueprint or from the instance; in a third of the cases the same instance then answers 1-3 further calls with other facts; both settings of ReturnErrOnFailedRuleEvaluation. Oracle: the returned names as a multiset equal the non-removed rules whose condition is true when evaluated by a fresh single-rule engine on the same facts; saliences are non-increasing and equal the declared ones; the complete fact data is deep-equal before and after; no action probe fires; with the flag set an error is returned exactly when some non-removed rule's condition fails. Non-trivial: at least 2 matching rules of different salience and at least 1 non-matching rule. Distinct by rule text + state + removed set + flag.")
+	col := stats.New("C11", "rule sets of 1-8 rules with generated conditions (true, false, and conditions that fail to evaluate: index/key out of range, missing field/fact, nil pointer, panicking/unknown method, modulo zero, kind mismatch), saliences with ties and int32 limits, action lists containing counted probe statements, and 0-2 rules removed from the library blueprint or from the instance; in half of the cases the same instance then answers 1-3 further calls with other facts; both settings of ReturnErrOnFailedRuleEvaluation. Oracle: the returned names as a multiset equal the non-removed rules whose condition is true when evaluated by a fresh single-rule engine on the same facts; saliences are non-increasing and equal the declared ones; the complete fact data is deep-equal before and after; no action probe fires; with the flag set an error is returned exactly when some non-removed rule's condition fails. Non-trivial: at least 2 matching rules of different salience and at least 1 non-matching rule. Distinct by rule text + state + removed set + flag.")
 	defer col.Flush()
 	rc := fullRuleCfg()
 	rc.Forget = false
 	rc.MinRules, rc.MaxRules, rc.ExprDepth, rc.MaxActions = 1, 8, 2, 2
 	rc.Marks, rc.Probes = true, true
 	cfg := rsGenCfg{Rules: rc, Vary: true}
-	check(t, 0, budget(6000, 80000), func(rt *rapid.T) {
+	check(t, 0, budget(12000, 120000), func(rt *rapid.T) {
 		c, rs := genRSCase(rt, cfg)
 		labels := featLabels(rs)
-		if rapid.IntRange(0, 2).Draw(rt, "inject_failing") == 0 {
+		// failures that depend on a location the states differ in (an index that is in range for one call's
+		// facts and out of range for another's) need the hot locations
+		c14Hot = rs.Hot
+		defer func() { c14Hot = nil }()
+		var more []*facts.State
+		if rapid.IntRange(0, 1).Draw(rt, "further_calls") == 0 {
+			for i, n := 0, rapid.IntRange(1, 3).Draw(rt, "nfurther"); i < n; i++ {
+				more = append(more, c08GenState(rt, rs, rc.State))
+			}
+			labels = append(labels, "further_calls_on_the_same_instance")
+		}
+		injectOdds := 2 // one case in three
+		if len(more) > 0 {
+			injectOdds = 1 // every other case: a condition may fail for one call's facts and not for another's
+		}
+		if rapid.IntRange(0, injectOdds).Draw(rt, "inject_failing") == 0 {
 			r := c.Rules[rapid.IntRange(0, len(c.Rules)-1).Draw(rt, "inject_rule")]
 			for tries := 0; tries < 4; tries++ {
 				saved := r.When
@@ -228,13 +243,6 @@ func TestC11(t *testing.T) {
 			} else {
 				remInst = append(remInst, n)
 			}
-		}
-		var more []*facts.State
-		if rapid.IntRange(0, 2).Draw(rt, "further_calls") == 0 {
-			for i, n := 0, rapid.IntRange(1, 3).Draw(rt, "nfurther"); i < n; i++ {
-				more = append(more, c08GenState(rt, rs, rc.State))
-			}
-			labels = append(labels, "further_calls_on_the_same_instance")
 		}
 		v, info, err := c11Run(c, remLib, remInst, more...)
 		if err != nil {
